@@ -657,15 +657,22 @@ def map_comprehension(ex, st: State, it: V, node, gen):
         return None
     elt = node.elt
     mf = getattr(ex.ctx, 'map_functions', {})
-    if not (isinstance(elt, ast.Call) and len(elt.args) == 1 and isinstance(elt.args[0], ast.Name)
-            and elt.args[0].id == gen.target.id and not elt.keywords):
+    if isinstance(elt, ast.Call) and not elt.args and not elt.keywords and isinstance(elt.func, ast.Attribute) \
+            and isinstance(elt.func.value, ast.Name) and elt.func.value.id == gen.target.id:
+        fname = '.' + elt.func.attr          # [x.method() for x in seq]
+    elif isinstance(elt, ast.Call) and len(elt.args) == 1 and isinstance(elt.args[0], ast.Name) \
+            and elt.args[0].id == gen.target.id and not elt.keywords:
+        fname = ast.unparse(elt.func)        # [f(x) for x in seq]
+    else:
         return None
-    fname = ast.unparse(elt.func)
     if fname not in mf:
         return None
     seq, n, elem = iter_seq(ex, st, it)
     if seq is None:
         return None
+    hooks = ex.ctx.hooks
+    if hooks is not None and hasattr(hooks, 'on_map'):
+        hooks.on_map(ex, st, fname, seq)
     r = st.alloc('list')
     rs = fresh(SeqVal, 'mapped')
     j = z3.Int('j!map')
